@@ -156,6 +156,6 @@ def build(ctx):
                                 object_bits=10, timeout=900, ignore=r'^verif_alive: \[pointer_primitives\]',
                                 param='element size %d' % d, replay=replay_C05.replay))
     # memory pools that grow, shrink and re-align: the accounting obligations of the pool unit (bounded, see C03/C04)
-    groups += C03.build(ctx, prop='C05', only_ops=['reserve', 'resize', 'shrinkToFit', 'setAlignment'],
+    groups += C03.build(ctx, prop='C05', only_ops=['resize', 'setAlignment'] if ctx.tier == 'quick' else ['reserve', 'resize', 'shrinkToFit', 'setAlignment'],
                         only_aligns=[(128, 8)] if ctx.tier == 'quick' else None)
     return groups
